@@ -14,6 +14,8 @@ pub struct CrateSpec {
     pub named: Vec<String>,    // [features] keys except default
     pub optional: Vec<String>, // optional dependencies (implicit features)
     pub examples: Vec<(String, Vec<String>)>,
+    /// dependencies on other crates of the workspace (`path = "../<crate>"`), optional or not
+    pub local_deps: Vec<String>,
 }
 
 /// Minimal manifest reader: `[features]` keys, `optional = true` dependencies, `[[example]]` blocks.
@@ -24,6 +26,7 @@ pub fn read_manifest(dir: &str) -> CrateSpec {
     let mut optional = Vec::new();
     let mut examples: Vec<(String, Vec<String>)> = Vec::new();
     let mut name = dir.to_string();
+    let mut local_deps = Vec::new();
     for line in text.lines() {
         let l = line.trim();
         if l.starts_with('#') || l.is_empty() {
@@ -41,7 +44,14 @@ pub fn read_manifest(dir: &str) -> CrateSpec {
         match section.as_str() {
             "[package]" if k == "name" => name = v.trim_matches('"').to_string(),
             "[features]" if k != "default" => named.push(k.to_string()),
-            "[dependencies]" if v.contains("optional = true") || v.contains("optional=true") => optional.push(k.to_string()),
+            "[dependencies]" => {
+                if v.contains("path =") || v.contains("path=") {
+                    local_deps.push(k.to_string());
+                }
+                if v.contains("optional = true") || v.contains("optional=true") {
+                    optional.push(k.to_string());
+                }
+            }
             "[[example]]" => {
                 if let Some(e) = examples.last_mut() {
                     if k == "name" {
@@ -54,7 +64,7 @@ pub fn read_manifest(dir: &str) -> CrateSpec {
             _ => {}
         }
     }
-    CrateSpec { name, named, optional, examples }
+    CrateSpec { name, named, optional, examples, local_deps }
 }
 
 #[derive(Clone, Debug)]
@@ -117,6 +127,50 @@ pub fn jobs(thorough: bool) -> (Vec<Job>, Vec<CrateSpec>) {
             out.push(Job { krate: s.name.clone(), features: Some(set.clone()), all_features: false, examples: false, release: false });
             if ex {
                 out.push(Job { krate: s.name.clone(), features: Some(set), all_features: false, examples: true, release: false });
+            }
+        }
+        // the cross-crate product: features of a workspace dependency switched on from outside
+        // (`--features <dep>/<feature>`, what a consumer depending on both crates causes), on top of
+        // a few of the crate's own sets that include that dependency
+        for dep in &s.local_deps {
+            let Some(ds) = specs.iter().find(|x| &x.name == dep) else { continue };
+            let mut dfeat: Vec<String> = ds.named.clone();
+            dfeat.extend(ds.optional.iter().cloned());
+            dfeat.sort();
+            dfeat.dedup();
+            if dfeat.is_empty() {
+                continue;
+            }
+            let dsets: Vec<Vec<String>> = if dfeat.len() <= 3 || thorough && dfeat.len() <= 5 {
+                powerset(&dfeat).into_iter().filter(|x| !x.is_empty()).collect()
+            } else {
+                let mut v: Vec<Vec<String>> = dfeat.iter().map(|f| vec![f.clone()]).collect();
+                v.push(dfeat.clone());
+                v
+            };
+            let dep_is_optional = s.optional.contains(dep);
+            let mut own: Vec<Vec<String>> = vec![if dep_is_optional { vec![dep.clone()] } else { vec![] }];
+            own.push(all.clone());
+            // every own set that lacks exactly one feature (and still has the dependency)
+            for i in 0..all.len() {
+                let v: Vec<String> = all.iter().enumerate().filter(|(j, _)| *j != i).map(|(_, x)| x.clone()).collect();
+                if !dep_is_optional || v.contains(dep) {
+                    own.push(v);
+                }
+            }
+            if !thorough && own.len() > 3 {
+                own.truncate(3);
+            }
+            for o in &own {
+                for d in &dsets {
+                    let mut set = o.clone();
+                    set.extend(d.iter().map(|f| format!("{dep}/{f}")));
+                    set.sort();
+                    set.dedup();
+                    if seen.insert(set.clone()) {
+                        out.push(Job { krate: s.name.clone(), features: Some(set), all_features: false, examples: false, release: false });
+                    }
+                }
             }
         }
         for ex in [false, true] {
@@ -182,20 +236,24 @@ fn first_error(stderr: &str) -> String {
 pub fn run(ctx: &'static Ctx) -> (&'static str, Value, Vec<&'static str>) {
     let thorough = ctx.tier.thorough();
     let (js, specs) = jobs(thorough);
-    let workers = if thorough { 8 } else { 8 };
+    let workers = 12;
     let pool = rayon::ThreadPoolBuilder::new().num_threads(workers).build().unwrap_or_else(|e| machinery(&format!("thread pool: {e}")));
     let next_dir = AtomicUsize::new(0);
     thread_local! { static DIR: std::cell::Cell<usize> = const { std::cell::Cell::new(usize::MAX) }; }
+    // a fixed assignment of invocations to target directories (by a hash of the job, so that it is
+    // stable when the job list grows) keeps each directory's cargo cache warm from run to run
+    let _ = (&next_dir, &DIR);
+    let dir_of = |j: &Job| -> usize { (fnv64(format!("{}|{:?}|{}|{}|{}", j.krate, j.features, j.all_features, j.examples, j.release).as_bytes()) % workers as u64) as usize };
+    let mut buckets: Vec<Vec<(usize, &Job)>> = (0..workers).map(|_| Vec::new()).collect();
+    for (i, j) in js.iter().enumerate() {
+        buckets[dir_of(j)].push((i, j));
+    }
     let stats: Stats = pool.install(|| {
-        js.par_iter()
+        buckets
+            .par_iter()
             .enumerate()
-            .fold(Stats::new, |mut st, (i, j)| {
-                let d = DIR.with(|d| {
-                    if d.get() == usize::MAX {
-                        d.set(next_dir.fetch_add(1, Ordering::SeqCst));
-                    }
-                    d.get()
-                });
+            .flat_map_iter(|(d, b)| b.iter().map(move |(i, j)| (d, *i, *j)))
+            .fold(Stats::new, |mut st, (d, i, j)| {
                 let dir = format!("/verif/.target/c20-{d}");
                 let (ok, stderr) = run_job(j, &dir);
                 st.eval();
@@ -229,7 +287,7 @@ pub fn run(ctx: &'static Ctx) -> (&'static str, Value, Vec<&'static str>) {
             .reduce(Stats::new, Stats::merge)
     });
     let cov = stats.coverage(
-        "features derived from the four manifests ([features] keys + optional dependencies); thorough = the complete powerset per crate (model 2^3, decode 2^2, data 2^11 incl. verif-hooks, facade 2^3), quick = full powersets of the small crates and, for nexrad-data, the named-feature powerset + every optional dependency alone and on top of the named features + every pair and every triple of features (3-way interaction coverage) + every all-but-one set; the library is always checked alone (--lib) and the examples in a separate invocation, because dev-dependency feature unification can mask a missing cfg gate; plus default and --all-features; every invocation in both build profiles (dev: debug_assertions on; --release: off); examples are checked whenever their required-features are enabled. Oracle = exit status of `cargo check --offline`. non-trivial = >= 2 features enabled",
+        "features derived from the four manifests ([features] keys + optional dependencies); thorough = the complete powerset per crate (model 2^3, decode 2^2, data 2^11 incl. verif-hooks, facade 2^3), quick = full powersets of the small crates and, for nexrad-data, the named-feature powerset + every optional dependency alone and on top of the named features + every pair and every triple of features (3-way interaction coverage) + every all-but-one set; the library is always checked alone (--lib) and the examples in a separate invocation, because dev-dependency feature unification can mask a missing cfg gate; plus the cross-crate product (features of a workspace dependency enabled from outside, `dep/feature`, on top of the minimal, full and all-but-one own sets); plus default and --all-features; every invocation in both build profiles (dev: debug_assertions on; --release: off); examples are checked whenever their required-features are enabled. Oracle = exit status of `cargo check --offline`. non-trivial = >= 2 features enabled",
         thorough,
         json!({"crates": specs.iter().map(|s| json!({"name": s.name, "named": s.named, "optional": s.optional, "examples": s.examples.iter().map(|e| e.0.clone()).collect::<Vec<_>>()})).collect::<Vec<_>>(), "invocations": js.len(), "parallel_target_dirs": workers}),
     );
